@@ -31,7 +31,7 @@ def legs(tier, seed, scratch):
         tool = build.bin_path("bedtobigbed")
         cols = list(range(0, 41)) if tier != "quick" else [0, 1, 2, 3, 5, 8, 9, 10, 12, 13, 14, 20, 40]
         for n in cols:
-            for mode in ("generated", "supplied"):
+            for mode in ("generated", "supplied", "supplied_crlf"):
                 rng = random.Random("%s:%s:%s" % (seed, n, mode))
                 d = os.path.join(scratch, "c19_%d_%s" % (n, mode))
                 os.makedirs(d, exist_ok=True)
@@ -47,11 +47,14 @@ def legs(tier, seed, scratch):
                 outp = os.path.join(d, "out.bb")
                 cmd = [tool, bed, sizes, outp]
                 supplied = None
-                if mode == "supplied":
+                if mode.startswith("supplied"):
                     supplied = "table mine%d\n\"My α schema\"\n(\n string chrom; \"c\"\n uint chromStart; \"s\"\n uint chromEnd; \"e\"\n%s)\n" % (
                         n, "".join(" lstring extra%d; \"x\"\n" % i for i in range(n)))
+                    if mode == "supplied_crlf":
+                        # a .as file saved with DOS line endings: same schema, same declared field count
+                        supplied = supplied.replace("\n", "\r\n")
                     asf = os.path.join(d, "schema.as")
-                    open(asf, "w").write(supplied)
+                    open(asf, "w", newline="").write(supplied)
                     cmd += ["--autosql", asf]
                 if rng.random() < 0.5:
                     cmd += ["--single-pass"]
@@ -75,9 +78,9 @@ def legs(tier, seed, scratch):
                         text = asql["result"] or ""
                         if fc != 3 + n:
                             viol.append(("header_field_count_wrong", mode + (":beyond_bed12" if n > 12 else ":within_bed12"), dict(field_count=fc, expected=3 + n)))
-                        if mode == "supplied":
+                        if mode.startswith("supplied"):
                             if text != supplied:
-                                viol.append(("autosql_not_verbatim", "supplied", dict(got=text[:400], expected=supplied[:400])))
+                                viol.append(("autosql_not_verbatim", mode, dict(got=text[:400], expected=supplied[:400])))
                         else:
                             declared = text.count(";")
                             if declared != 3 + n:
